@@ -34,6 +34,7 @@ type Case struct {
 	Procs    int      `json:"gomaxprocs"`
 	Yield    uint64   `json:"yield_seed"` // 0 = no injected yields
 	Compress bool     `json:"compress_utxo"`
+	Observer bool     `json:"utxo_callbacks,omitempty"` // UTXO callbacks installed (the client with its wallet on)
 }
 
 func TestMain(m *testing.M) {
@@ -127,7 +128,7 @@ func run(c Case) (*sim.Sim, *obs, error) {
 		}
 		return checkSnapshot(s, o)
 	}}
-	s, err := sim.RunCaseOpen(c.Sim, env.Options{CompressUTXO: c.Compress}, hooks, pbt.FindingOpen)
+	s, err := sim.RunCaseOpen(c.Sim, c11opts(c), hooks, pbt.FindingOpen)
 	return s, o, err
 }
 
@@ -282,6 +283,7 @@ func genCase(t *rapid.T) Case {
 		c.Yield = rapid.Uint64Range(1, 1<<40).Draw(t, "yieldseed")
 	}
 	c.Compress = rapid.IntRange(0, 3).Draw(t, "compress") == 0
+	c.Observer = rapid.IntRange(0, 2).Draw(t, "observer") == 0
 	return c
 }
 
@@ -325,4 +327,12 @@ func TestSchedules(t *testing.T) {
 			r.Failf("GOMAXPROCS=%d yield=%d: %v", c.Procs, c.Yield, err)
 		}
 	})
+}
+
+func c11opts(c Case) env.Options {
+	o := env.Options{CompressUTXO: c.Compress}
+	if c.Observer {
+		o.UTXOCallbacks = env.ObserverCallbacks()
+	}
+	return o
 }
